@@ -26,9 +26,14 @@ VIEWS1 = ["getSupply", "getBorrow", "maxBorrowAmount"]
 
 
 # ------------------------------------------------------------------------------------------ objects
+TOKEN_DECIMALS = {"USDC": 6, "USDT": 6, "WBTC": 8, "EURS": 2, "GUSD": 2}     # as on chain; everything else 18
+
+
 def token(name):
+    """TokenInfo with the token's real number of decimals (the Aave code must not depend on it: balances are Decimals
+    scaled by the indices, dust is MIN_TOKEN_VALUE for every token)"""
     from demeter import TokenInfo
-    return TokenInfo(name, 18)
+    return TokenInfo(name, TOKEN_DECIMALS.get(name.upper(), 18))
 
 
 _RISK_TEMPLATE = None
